@@ -50,6 +50,7 @@ def jobs(tier):
         mk('C15', 'fw_target_cleared_then_timeout', S.fw_target_cleared_then_timeout(), witnesses=W),
         mk('C15', 'flood_idle', S.flood_idle(), witnesses=W),
         mk('C15', 'cyclic_redispatch', S.cyclic_redispatch(), witnesses=W),
+        mk('C15', 'idle_at_handler_end', S.idle_at_handler_end(), witnesses=W),
         mk('C15', 'errors/parent/TimeoutError/sync', dict(S.errors('TimeoutError', 'parent', sync=True),
                                                               main=[['root', 'A', 'P', 'P1'], ['root', 'A', 'L', 'L1'], ['idle', 'A'], ['obs_all', 'end']]), witnesses=W),
         mk('C15', 'child/await/unlimited_history', dict(S.child('await', k=1), max_history={'A': None}), witnesses=W),
